@@ -399,3 +399,28 @@ def c18(run):
     run.model_check("MC_Equality", timeout=1800)
     family_enumerated(run, "equal", "Gen_Equality", "Trace_Equality")
     family_random(run, "equal", "Trace_Equality", tier_n(run, 6000, 300000))
+
+FAMILY_MODULE["linear"] = "Trace_Linear"
+
+
+def _canary_linear(e):
+    if e["kind"] == "interp" and not e["empty"] and e["finite"] and len(e["line"]) > 1:
+        e["q"][0] += 40
+        return e
+    return None
+
+
+CANARY["linear"] = _canary_linear
+
+
+@prop("C17")
+def c17(run):
+    run.assumptions += ["interpolation decided on lattice lines with integer segment lengths (rational arc length) to 2^-9 of the unit; "
+                        "Simplify exact (rational threshold); Densify to 2/256 of the unit on lattices <= 8; SnapToGrid oddness / "
+                        "idempotence / finiteness as bit relations over the full range, the half-step bound only for 3-digit decimals"]
+    run.extra_cov = {"rule": "InterpolatePoint at fractions in [-1,2] incl. 0, 1 and breakpoints on paths with repeated vertices at the "
+                             "start / middle / end and closed paths, all coordinate types; InterpolateEvenlySpacedPoints n in -2..50; "
+                             "Simplify thresholds 0..diameter on lattice lines and rings; Densify distances up to 10 x the side; "
+                             "SnapToGrid decimal places -320..320 on ordinates up to +-1.8e308 and random bit patterns; Reverse and "
+                             "ForceCW/CCW on lattice geometries of every type"}
+    family_random(run, "linear", "Trace_Linear", tier_n(run, 16000, 600000))
